@@ -1911,7 +1911,10 @@ fn parse_action_atom(ac_span: &Spanned<String>, s: &ParserState) -> Result<&'sta
                     e.span = Some(ac_span.span.clone());
                     return Err(e);
                 }
-                let nesting = (s.action_nest_count.get()).saturating_add(alias_nesting);
+                // The alias's action takes the place of this reference: its outermost level is
+                // the level of the reference, which the nesting count already includes.
+                let nesting =
+                    (s.action_nest_count.get()).saturating_add(alias_nesting.saturating_sub(1));
                 if nesting > MAX_ACTION_NESTING {
                     bail_span!(
                         ac_span,
